@@ -472,6 +472,13 @@ fn scenario(ctx: &Ctx, out: &mut Outcome, rng: &mut Rng, idx: u64) {
                         .collect();
                     if merged.len() == 1 {
                         swaps += 1;
+                        let merged_rows = cat.chunks[merged[0]].base.row_count;
+                        if merged_rows >= 1024 && merged_rows % 1024 == 0 {
+                            out.count("merges_writing_a_whole_number_of_1024_row_batches", 1);
+                            if merged_rows % 8192 == 0 {
+                                out.count("merges_writing_a_whole_number_of_8192_row_batches", 1);
+                            }
+                        }
                         let want = removed.iter().map(|r| p.chunks[*r].level).max().unwrap_or(0) + 1;
                         let got = cat.chunks[merged[0]].level;
                         if got != want {
